@@ -56,7 +56,9 @@ RULE = ('cases: every seed object under seeds/c11 and every ELF under test/testf
         '(gABI and legacy framing built by the Coq encoders at zlib levels 0-9, all/some/only-shrinking sections; objcopy '
         'zlib / zlib-gnu / only-keep-debug + debuglink variants; debug links with right and wrong CRC, with and without a '
         'loader, follow_links on/off; .gnu_debugaltlink / .debug_sup; two-hop chains debug link -> supplementary link (own builders and the '
-        'dwz-produced test files whose DIEs use the alt/sup forms); keep-debug = unobserved sections made SHT_NOBITS), synthetic images in all class/byte-order '
+        'dwz-produced test files whose DIEs use the alt/sup forms); keep-debug = unobserved sections made SHT_NOBITS), presence truth table over all subsets of {.debug_info, .zdebug_info, '
+        '.eh_frame, .gnu_debuglink, .gnu_debugaltlink, .debug_sup} x strict x loader x class x byte order on section-only files, '
+        'synthetic images in all class/byte-order '
         'combinations, presence truth table, malformed framings. distinct = hash(kind, abstract); non-trivial = at least '
         'one section re-encoded, a link followed, or an error case')
 
@@ -390,6 +392,14 @@ def gen(ctx):
             for mask in range(8):
                 for strict in (0, 1):
                     cases.append(('presence', [le, is64, mask, strict, rng.getrandbits(16)]))
+    # full truth table of presence on section-only files: every subset of the six debug-ish section names x strict x
+    # loader present or not x class x byte order (files whose ONLY debug-ish section is a link carrier included)
+    for le in (0, 1):
+        for is64 in (0, 1):
+            for mask in range(64):
+                for strict in (0, 1):
+                    for ld in (0, 1):
+                        cases.append(('presence_tt', [le, is64, mask, strict, ld, rng.getrandbits(16)]))
     # synthetic payloads, all class / byte order combinations, phantom bytes
     for le in (0, 1):
         for is64 in (0, 1):
@@ -562,7 +572,7 @@ def base_kind(kind):
     return best
 
 
-KIND_ALIAS = {'presence_independent': 'presence_file'}
+KIND_ALIAS = {'presence_independent': 'presence_file'}      # NB 'presence_spec' may stem from presence or presence_tt: the abstract's length tells
 
 
 def _advance(ctx, g, answers):
@@ -951,6 +961,9 @@ def h_chain(ctx, kind, a):
 
 def h_presence(ctx, kind, a):
     from elftools.elf.elffile import ELFFile
+    if len(a) == 6:                                      # a replayed presence_spec record of the truth-table kind
+        yield from h_presence_tt(ctx, 'presence_tt', a)
+        return
     le, is64, mask, strict, seed = a
     rng = _mk_rng(seed)
     secs = [(b'.text', 1, 6, 0x1000, b'\x90' * 4), (b'.debug_abbrev', 1, 0, 0, b'\1\2'), (b'.zdebug_str', 1, 0, 0, b'x'),
@@ -971,6 +984,44 @@ def h_presence(ctx, kind, a):
                key='C11/presence')
     if spec != formula:
         ctx.record('presence_spec', a, impl=spec, spec=formula, model=None, in_domain=True, key='C11/spec-presence-vs-mask')
+
+
+TT_NAMES = [b'.debug_info', b'.zdebug_info', b'.eh_frame', b'.gnu_debuglink', b'.gnu_debugaltlink', b'.debug_sup']
+
+
+def h_presence_tt(ctx, kind, a):
+    """has_dwarf_info(strict) and has_dwarf_link() on a file holding exactly the chosen subset of the debug-ish names
+    (plus decoys): presence is reported exactly when .debug_info / .zdebug_info (non-strictly also .eh_frame) exists;
+    link carriers do not count"""
+    from elftools.elf.elffile import ELFFile
+    le, is64, mask, strict, ld, seed = a
+    rng = _mk_rng(seed)
+    lname = b'x.debug'
+    bodies = {b'.debug_info': b'\0' * 11, b'.zdebug_info': b'ZLIB' + b'\0' * 8 + zlib.compress(b''),
+              b'.eh_frame': b'\0' * 4,
+              b'.gnu_debuglink': lname + b'\0' * (4 - len(lname) % 4) + b'\x12\x34\x56\x78',
+              b'.gnu_debugaltlink': b'x.sup\0' + bytes(range(20)),
+              b'.debug_sup': b'\5\0\0x.sup\0\x14' + bytes(range(20))}
+    secs = [(b'.text', 1, 6, 0x1000, b'\x90' * 4), (b'.debug_abbrev', 1, 0, 0, b'\1\2'), (b'.gnu_debuglinkX', 1, 0, 0, b'q'),
+            (b'gnu_debuglink', 1, 0, 0, b'n'), (b'.eh_frame_hdr', 1, 2, 0x3000, b'hdr')]
+    for k, nm in enumerate(TT_NAMES):
+        if mask >> k & 1:
+            secs.append((nm, 1, 2 if nm == b'.eh_frame' else 0, 0x2000 if nm == b'.eh_frame' else 0, bodies[nm]))
+    rng.shuffle(secs)
+    img = U.build_elf(bool(le), bool(is64), 62, 0, secs)
+    (m, s), (hm, lm) = yield [['presence', img, strict], ['link', img]]
+    loader = _loader_of({}) if ld else None
+    def run():
+        e = ELFFile(io.BytesIO(img), loader)
+        return [int(e.has_dwarf_info(bool(strict))), int(e.has_dwarf_link())]
+    impl = framework.impl_call(run)
+    formula = [int(bool(mask & 1) or bool(mask & 2) or (not strict and bool(mask & 4))), int(bool(mask & 8))]
+    spec = [s[1] if s != 'none' else 'none', formula[1]]
+    model = [m[1] if m[0] == 'ok' else m, hm[1] if hm[0] == 'ok' else hm]
+    ctx.record(kind, a, impl=impl, spec=spec, model=model, in_domain=True, nontrivial=True, key='C11/presence')
+    if spec != formula:
+        ctx.record('presence_spec', a, impl=spec, spec=formula, model=None, in_domain=True, key='C11/spec-presence-vs-mask')
+    ctx.bump('presence_tt', 'only-link-carriers' if (mask & 7) == 0 and mask else ('none' if not mask else 'with-data'))
 
 
 def h_synth(ctx, kind, a):
@@ -1145,6 +1196,6 @@ def h_linkparse(ctx, kind, a):
     ctx.record(kind, a, impl=impl, spec=spec, model=model, in_domain=complete, nontrivial=True, key='C11/debuglink-parse')
 
 
-HANDLERS = {'plain': h_plain, 'keepdebug': h_keepdebug, 'chain': h_chain, 'presence_file': h_presence_file, 'gabi': h_reencode, 'zgnu': h_reencode,
+HANDLERS = {'plain': h_plain, 'presence_tt': h_presence_tt, 'keepdebug': h_keepdebug, 'chain': h_chain, 'presence_file': h_presence_file, 'gabi': h_reencode, 'zgnu': h_reencode,
             'objcopy': h_objcopy, 'link': h_link, 'link_path': h_link_path, 'sup': h_sup, 'presence': h_presence,
             'synth': h_synth, 'zbad': h_bad, 'gbad': h_bad, 'crc': h_crc, 'crc_rand': h_crc, 'linkparse': h_linkparse}
